@@ -44,15 +44,34 @@ def sha_files(paths, extra=""):
 # Coq
 
 def regen_constants():
-    r = sh([sys.executable, os.path.join(VERIF, "gen", "src_constants.py")])
+    with CoqLock():
+        r = sh([sys.executable, os.path.join(VERIF, "gen", "src_constants.py")])
     try:
         return json.loads(r.stdout.strip().splitlines()[-1])
     except Exception:
         return {"error": r.stdout[-500:]}
 
 
+class CoqLock:
+    """serialise everything that writes under coq/ (make, coqc, extraction)"""
+    def __enter__(self):
+        import fcntl
+        self.f = open(os.path.join(COQ, ".lock"), "w")
+        fcntl.flock(self.f, fcntl.LOCK_EX)
+        return self
+    def __exit__(self, *a):
+        import fcntl
+        fcntl.flock(self.f, fcntl.LOCK_UN)
+        self.f.close()
+
+
 def coq_make(targets=None, keep_going=True, timeout=3000):
     """Full .vo build (never -vos).  Returns (ok, log)."""
+    with CoqLock():
+        return _coq_make(targets, keep_going, timeout)
+
+
+def _coq_make(targets=None, keep_going=True, timeout=3000):
     if not os.path.exists(os.path.join(COQ, "Makefile")):
         r = sh(["coq_makefile", "-f", "_CoqProject", "-o", "Makefile"], cwd=COQ)
         if r.returncode != 0:
@@ -96,7 +115,8 @@ def prove(pid):
     ok, log = coq_make()
     vo = os.path.join(COQ, fn + "o")
     # force recompile of the property file to capture its output
-    r = sh(["timeout", "1200", "coqc", "-Q", ".", "CCTZ", fn], cwd=COQ)
+    with CoqLock():
+        r = sh(["timeout", "1200", "coqc", "-Q", ".", "CCTZ", fn], cwd=COQ)
     res["log"] = (log[-2000:] if not ok else "") + r.stdout[-6000:]
     if r.returncode != 0 or not os.path.exists(vo):
         res["failed"] = list(obligations)
@@ -133,11 +153,14 @@ def build_driver():
     srcs = [os.path.join(COQ, "model.ml"), os.path.join(COQ, "model.mli")] + \
            [os.path.join(VERIF, "ocaml", f) for f in sorted(os.listdir(os.path.join(VERIF, "ocaml"))) if f.endswith(".ml") or f.endswith(".c")]
     key = sha_files(srcs)
-    d = os.path.join(CACHE, "driver", key)
-    exe = os.path.join(d, "driver")
+    final = os.path.join(CACHE, "driver", key)
+    exe = os.path.join(final, "driver")
     if os.path.exists(exe):
         return exe, "cached"
-    os.makedirs(d, exist_ok=True)
+    os.makedirs(os.path.join(CACHE, "driver"), exist_ok=True)
+    d = final + ".tmp.%d" % os.getpid()
+    shutil.rmtree(d, ignore_errors=True)
+    os.makedirs(d)
     for s in srcs:
         shutil.copy(s, d)
     mls = ["model.mli", "model.ml"] + [f for f in ["libc_stub.c", "util.ml", "driver_zone.ml", "driver_fmt.ml", "driver.ml"] if os.path.exists(os.path.join(d, f))]
@@ -145,6 +168,10 @@ def build_driver():
     if r.returncode != 0:
         shutil.rmtree(d, ignore_errors=True)
         return None, r.stdout
+    try:
+        os.rename(d, final)
+    except OSError:
+        shutil.rmtree(d, ignore_errors=True)
     return exe, "built"
 
 
@@ -175,11 +202,19 @@ def build_harness(variant="asan", extra_flags=None, harness_src="harness.cc"):
     hdir = os.path.join(VERIF, "harness")
     hsrcs = [os.path.join(hdir, f) for f in sorted(os.listdir(hdir)) if f.endswith((".cc", ".inc", ".h"))]
     key = sha_files(repo_sources() + hsrcs, extra=" ".join(flags) + harness_src + CXX)
-    d = os.path.join(CACHE, "harness", key)
-    exe = os.path.join(d, "harness")
+    final = os.path.join(CACHE, "harness", key)
+    exe = os.path.join(final, "harness")
     if os.path.exists(exe):
+        try:
+            os.utime(final, None)
+        except OSError:
+            pass
         return exe, "cached"
-    os.makedirs(d, exist_ok=True)
+    os.makedirs(os.path.join(CACHE, "harness"), exist_ok=True)
+    d = final + ".tmp.%d" % os.getpid()      # private build dir: concurrent checks cannot disturb each other
+    shutil.rmtree(d, ignore_errors=True)
+    os.makedirs(d)
+    exe_tmp = os.path.join(d, "harness")
     units = [os.path.join(REPO, "src", s) for s in LIB_SRCS] + [os.path.join(hdir, harness_src)]
 
     def cc(u):
@@ -192,16 +227,20 @@ def build_harness(variant="asan", extra_flags=None, harness_src="harness.cc"):
         if rc != 0:
             shutil.rmtree(d, ignore_errors=True)
             return None, out
-    r = sh([CXX] + flags + [o for _, _, o in results] + ["-o", exe])
+    r = sh([CXX] + flags + [o for _, _, o in results] + ["-o", exe_tmp])
     if r.returncode != 0:
         shutil.rmtree(d, ignore_errors=True)
         return None, r.stdout
     for _, _, o in results:
         os.remove(o)
-    # keep the cache small: drop older harness builds
+    try:
+        os.rename(d, final)
+    except OSError:
+        shutil.rmtree(d, ignore_errors=True)     # somebody else finished the same build first
+    # keep the cache small: drop builds not used for a while (never the recent ones)
     hroot = os.path.join(CACHE, "harness")
-    olds = sorted((os.path.getmtime(os.path.join(hroot, x)), x) for x in os.listdir(hroot))
-    for _, x in olds[:-6]:
+    olds = sorted((os.path.getmtime(os.path.join(hroot, x)), x) for x in os.listdir(hroot) if ".tmp." not in x)
+    for _, x in olds[:-12]:
         shutil.rmtree(os.path.join(hroot, x), ignore_errors=True)
     return exe, "built"
 
@@ -278,6 +317,8 @@ def compare(cases, impl_lines, drv_lines, impl_failures=(), norm=None, ub_is_vio
     v = Verdict()
     for i, (c, il, dl) in enumerate(zip(cases, impl_lines, drv_lines)):
         if not c or c.startswith("#"):
+            continue
+        if c.startswith("cert "):
             continue
         m = DRV_RE.match(dl)
         if not m:
